@@ -174,6 +174,9 @@ M = [
  ("c19_hlg_to_linear_not_odd", "C19", "pair:hlg", "crates/jxl-color/src/tf.rs",
   "        let a = s.abs();\n        *s = if a <= 0.5 {\n            a * a / 3.0\n        } else {\n            (((a - HLG_C) / HLG_A).exp() + HLG_B) / 12.0\n        }\n        .copysign(*s);",
   "        let a = *s;\n        *s = if a <= 0.5 {\n            a * a / 3.0\n        } else {\n            (((a - HLG_C) / HLG_A).exp() + HLG_B) / 12.0\n        };"),
+ ("c13_reserve_before_charge", "C13", "alloc-before-charge:jxl_frame::GroupData::ensure_allocated", "crates/jxl-frame/src/lib.rs",
+  "            let handle = tracker.alloc::<u8>(size)?;\n            self.bytes.try_reserve(size)?;\n            self.handle = Some(handle);",
+  "            self.bytes.try_reserve(size)?;\n            let handle = tracker.alloc::<u8>(size)?;\n            self.handle = Some(handle);"),
  ("c01_cluster_map_decoder_two_dists", "C01", "bound-lost", "crates/jxl-coding/src/lib.rs",
   "            Decoder::parse(bitstream, 1)?\n        };\n        decoder.begin(bitstream)?;", "            Decoder::parse(bitstream, num_dist.min(2))?\n        };\n        decoder.begin(bitstream)?;"),
 ]
@@ -206,7 +209,8 @@ def main():
         REVERTS = {"D23": ("C01", "D23"), "D24": ("C01", "D24"), "D25": ("C05", "D25"), "D26": ("C05", "D26"), "D27": ("C01", "D27"),
                    "D28": ("C05", "D28"), "D29": ("C01", "D29"), "D30": ("C05", "D30"), "D31": ("C01", "D31"), "D32": ("C01", "D32"),
                    "D34": ("C01", "D34"), "D35": ("C01", "D35"), "D36": ("C04", "exit-without-finalize"), "D37": ("C03", "plain-sub"),
-                   "D38": ("C01", "try_compile_to_table|arith"), "D39": ("C03", "D39"), "D40": ("C01", "patch|arith:patch_ref"), "D42": ("C06", "D42"), "D44": ("C12", "i16-saturating")}
+                   "D38": ("C01", "try_compile_to_table|arith"), "D39": ("C03", "D39"), "D40": ("C01", "patch|arith:patch_ref"), "D42": ("C06", "D42"), "D44": ("C12", "i16-saturating"),
+                   "D43": ("C05", "alpha-region-ignored"), "D45": ("C06", "D45"), "D46": ("C06", "D46"), "D47": ("C06", "base-region-unchecked"), "D48": ("C05", "patch|alpha-region-ignored")}
         for d, (prop, key) in sorted(REVERTS.items()):
             if os.path.exists(os.path.join(V, "mutants", "reverts", "revert_%s.patch" % d)):
                 idx.append({"name": "reverts/revert_%s" % d, "property": prop, "expect": key})
